@@ -24,6 +24,10 @@ def check(run):
     for name, params, secs in plans:
         st = run.explore(name, SPEC + (params,), secs)
         records.extend(st['records'])
+    TP = ('mirsym.checks.run_level', 'ConcretePathCheck')
+    st = run.explore('T3 (short/long forms, optional nodes, standard commands): every message of 1..%d units from a library of 31 absolute / relative / common headers + relative probe message (concrete bytes)' % (3 if thorough else 2),
+                     TP + ({'k': 3 if thorough else 2},), 1800)
+    records.extend(st['records'])
     viol = {}
     n_calls = 0
     for r in records:
@@ -51,4 +55,38 @@ def check(run):
 
 
 def confirm(run, v):
+    if v['rule'] == 'TPATH':
+        return confirm_tpath(run, v)
     return run_cases_confirm(run, v)
+
+
+def confirm_tpath(run, v):
+    from ..oracle import RefTree, ref_message
+    from ..world import load_devices
+    from ..checks.run_level import unit_struct, STD_TEXT
+    tree = RefTree(load_devices()['T3'])
+    exp1 = ref_message(tree, lambda c: bool(c), [unit_struct(u) for u in v['units']])
+    calls, out, errors = [], b'', 1
+    for h in exp1:
+        if h == 'FAULT':
+            errors += 1
+            break
+        if h < tree.n_user:
+            calls.append(h)
+            ret = tree.decls[h]['ret']
+            if ret != '()':
+                out += {'u8': b'7\n', 'bool': b'1\n', '&str': b'"s"\n'}[ret]
+        else:
+            out += STD_TEXT[tree.extra[h]]
+    detail = {}
+    ok_all = True
+    for rel in (False, True):
+        o = run.native([{'entry': 'run', 'device': 'T3', 'input': v['input'], 'cap': None}], release=rel)[0]
+        got = [e[1] for e in o.get('events', []) if e[0] == 'call']
+        if 'FAULT' in exp1:
+            ok = got[:len(calls)] != calls
+        else:
+            ok = got != calls or bytes.fromhex(o.get('out', '')) != out or len(o.get('queue') or []) != errors
+        detail['release' if rel else 'dev'] = {'observation': o, 'expected_calls': calls, 'reproduced': ok}
+        ok_all = ok_all and ok
+    return ok_all, detail
